@@ -95,7 +95,26 @@ def runC18 (fields : List String) (obs : String) : String × String × String :=
      | some T =>
        let n := T.rows.length
        let single := (arg.splitOn ",").length == 1
-       if how == "rec" then
+       if how == "chain" then
+         -- `T[[i …]][second]`: the rows the index vector selects, then a mask (one flag per selected row) or an index vector
+         match arg.splitOn "|" with
+         | [a, b] =>
+           (match (a.splitOn ",").mapM String.toNat? with
+            | none => bad
+            | some ix1 =>
+              let exp : String :=
+                match selectIdx T.rows ix1 with
+                | none => "err"
+                | some rows1 =>
+                  if (b.splitOn ",").all (fun w => w == "true" || w == "false") then
+                    let mask := (b.splitOn ",").map (· == "true")
+                    if mask.length == rows1.length then tableText T.cols (selectMask rows1 mask) else "err"
+                  else match (b.splitOn ",").mapM String.toNat? with
+                    | some ix2 => (match selectIdx rows1 ix2 with | some rows => tableText T.cols rows | none => "err")
+                    | none => "err"
+              (exp, (if obs == exp then "ok" else "bad:expected " ++ exp), "-"))
+         | _ => bad
+       else if how == "rec" then
          match arg.toNat? with
          | some i =>
            let exp := if i == 0 then none else T.rows[i - 1]?
